@@ -103,3 +103,8 @@ CORPUS += [
     M("n-cloud-kept-for-same-region-and-account", "msmart/discover.py", "        # Always use a new cloud connection\n        cls._cloud = None\n",
       "        if (region, account, password) != (cls._region, cls._account, cls._password):\n            cls._cloud = None\n", "S"),
 ]
+# round 12: the password sent is derived for this request
+CORPUS += [
+    M("login-password-kept-from-earlier-login", "msmart/cloud.py", "                    \"password\": self._security.encrypt_password(self._login_id, self._password),",
+      "                    \"password\": self._login_password if getattr(self, \"_login_password\", None) else self._security.encrypt_password(self._login_id, self._password),"),
+]
